@@ -381,7 +381,7 @@ def _e6(ctx):
     latch = [n for n in ast.walk(lp) if isinstance(n, ast.Call) and norm(n.func) == "If" and
              any(isinstance(a, ast.Call) and norm(a.func) == f"{reg}.eq" and norm(a.args[0]) == "self.bus.dat_w" for a in n.args[1:])]
     from .. import names as _names
-    known_locals = _names.table().get(CSRBUS, {}).get("SRAM", {})
+    known_locals = _names.recorded(CSRBUS, "SRAM")
 
     def conj(e):
         if isinstance(e, ast.BinOp) and isinstance(e.op, ast.BitAnd):
